@@ -233,6 +233,15 @@ func (g *Gen) boundaryTable() []MsgSpec {
 		m := M("aol.AddRecord", "topic", topic, "owner", o, "writer", w)
 		out = append(out, m)
 	}
+	// code points that character-class shortcuts let through: case folding (KELVIN SIGN folds to k, LONG S to s, dotted/dotless
+	// I), full-width forms, digits and numerals of other scripts, invisible characters
+	specials := []string{"\u212a", "\u017f", "\u0130", "\u0131", "\uff21", "\uff10", "\u0663", "\u00b2", "\u2160", "\u200b", "\u00a0", "\u0301", "\ufeff", "\u00df", "\u03a9"}
+	for _, sp := range specials {
+		out = append(out, M("aol.CreateTopic", "topic", "clinic-"+sp, "owner", o), M("aol.CreateTopic", "topic", sp, "owner", o),
+			M("aol.AddWriter", "topic", "bt", "owner", o, "writer", w, "moniker", "dr-"+sp, "desc", ""),
+			M("aol.AddWriter", "topic", "x"+sp, "owner", o, "writer", w, "moniker", "m", "desc", ""),
+			M("aol.DeleteWriter", "topic", sp+"x", "owner", o, "writer", w), g.recordSpec(o, "rec"+sp, w, ""))
+	}
 	for _, mon := range []string{"", rep("m", 70), rep("m", 71), "m m", "é", "m\t", rep("m", 1000)} {
 		out = append(out, M("aol.AddWriter", "topic", "bt", "owner", o, "writer", w, "moniker", mon))
 	}
